@@ -223,49 +223,71 @@ fn show_resp(f: &RawFrame) -> String {
 // ------------------------------------------------------------------------------------------
 // transports
 // ------------------------------------------------------------------------------------------
+#[derive(Clone, Copy, PartialEq)]
+enum Kind {
+    Tcp,
+    Ws,
+}
+
+struct Endpoint {
+    name: &'static str,
+    kind: Kind,
+    addr: std::net::SocketAddr,
+    counters: Counters,
+}
+
 struct Servers {
-    tcp: std::net::SocketAddr,
-    atcp: std::net::SocketAddr,
-    ws: std::net::SocketAddr,
-    c_tcp: Counters,
-    c_atcp: Counters,
-    c_ws: Counters,
+    eps: Vec<Endpoint>,
     rt: tokio::runtime::Runtime,
 }
 
+/// Five real endpoints: blocking TCP and async TCP, each with and without a configured write timeout
+/// (different framing branches), and the WebSocket server; `wsp` is a WebSocket server whose outbound
+/// channel holds a single message (used by the pressure sequences).
 fn start_servers() -> Servers {
     let rt = tokio::runtime::Builder::new_multi_thread().worker_threads(4).enable_all().build().unwrap();
-    let c_tcp = Counters::default();
-    let c_atcp = Counters::default();
-    let c_ws = Counters::default();
-    // blocking TCP server
-    let listener = std::net::TcpListener::bind("127.0.0.1:0").unwrap();
-    let tcp = listener.local_addr().unwrap();
-    let srv = repe::Server::new(make_router(&c_tcp));
-    std::thread::spawn(move || {
-        let _ = srv.serve(listener);
-    });
-    // async TCP server
-    let r2 = make_router(&c_atcp);
-    let atcp = rt.block_on(async {
-        let l = tokio::net::TcpListener::bind("127.0.0.1:0").await.unwrap();
-        let a = l.local_addr().unwrap();
-        tokio::spawn(async move {
-            let _ = repe::AsyncServer::new(r2).serve(l).await;
+    let mut eps = Vec::new();
+    for (name, wt) in [("tcp", None), ("tcpw", Some(Duration::from_secs(20)))] {
+        let c = Counters::default();
+        let listener = std::net::TcpListener::bind("127.0.0.1:0").unwrap();
+        let addr = listener.local_addr().unwrap();
+        let srv = repe::Server::new(make_router(&c)).write_timeout(wt);
+        std::thread::spawn(move || {
+            let _ = srv.serve(listener);
         });
-        a
-    });
-    // WebSocket server
-    let r3 = make_router(&c_ws);
-    let ws = rt.block_on(async {
-        let l = tokio::net::TcpListener::bind("127.0.0.1:0").await.unwrap();
-        let a = l.local_addr().unwrap();
-        tokio::spawn(async move {
-            let _ = repe::websocket_server::WebSocketServer::new(r3).serve_listener(l, "/repe").await;
+        eps.push(Endpoint { name, kind: Kind::Tcp, addr, counters: c });
+    }
+    for (name, wt) in [("atcp", None), ("atcpw", Some(Duration::from_secs(20)))] {
+        let c = Counters::default();
+        let r = make_router(&c);
+        let addr = rt.block_on(async {
+            let l = tokio::net::TcpListener::bind("127.0.0.1:0").await.unwrap();
+            let a = l.local_addr().unwrap();
+            tokio::spawn(async move {
+                let _ = repe::AsyncServer::new(r).write_timeout(wt).serve(l).await;
+            });
+            a
         });
-        a
-    });
-    Servers { tcp, atcp, ws, c_tcp, c_atcp, c_ws, rt }
+        eps.push(Endpoint { name, kind: Kind::Tcp, addr, counters: c });
+    }
+    for (name, cap) in [("ws", None), ("wsp", Some(1usize))] {
+        let c = Counters::default();
+        let r = make_router(&c);
+        let addr = rt.block_on(async {
+            let l = tokio::net::TcpListener::bind("127.0.0.1:0").await.unwrap();
+            let a = l.local_addr().unwrap();
+            tokio::spawn(async move {
+                let mut s = repe::websocket_server::WebSocketServer::new(r);
+                if let Some(cap) = cap {
+                    s = s.with_outbound_capacity(cap);
+                }
+                let _ = s.serve_listener(l, "/repe").await;
+            });
+            a
+        });
+        eps.push(Endpoint { name, kind: Kind::Ws, addr, counters: c });
+    }
+    Servers { eps, rt }
 }
 
 /// What one transport returned for a sequence.
@@ -282,10 +304,14 @@ fn sentinel(id: u64) -> Vec<u8> {
 const S1: u64 = 0xFFFF_FFFF_0000_0001;
 const S2: u64 = 0xFFFF_FFFF_0000_0002;
 
-fn run_tcp(addr: std::net::SocketAddr, counters: &Counters, reqs: &[ReqSpec], expect_ids: &[u64], expect_dispatch: u64) -> TransportRun {
+/// Raw TCP client: a writer thread sends the pipelined requests and the first sentinel while this
+/// thread reads (so large sequences cannot deadlock on full socket buffers); `read_delay` slows the
+/// reader down per frame (pressure sequences).
+fn run_tcp(ep: &Endpoint, reqs: &[ReqSpec], expect_ids: &[u64], expect_dispatch: u64, read_delay: Duration) -> TransportRun {
+    let counters = &ep.counters;
     let mut out = TransportRun::default();
     let base_done = counters.total_done();
-    let mut s = match std::net::TcpStream::connect(addr) {
+    let mut s = match std::net::TcpStream::connect(ep.addr) {
         Ok(s) => s,
         Err(e) => { out.problems.push(format!("connect: {e}")); return out; }
     };
@@ -295,7 +321,8 @@ fn run_tcp(addr: std::net::SocketAddr, counters: &Counters, reqs: &[ReqSpec], ex
         wire.extend(RawFrame { h: r.h.clone(), query: r.query.clone(), body: r.body.clone() }.to_vec());
     }
     wire.extend(sentinel(S1));
-    if let Err(e) = s.write_all(&wire) { out.problems.push(format!("write: {e}")); return out; }
+    let mut ws = s.try_clone().expect("clone");
+    let writer = std::thread::spawn(move || ws.write_all(&wire).is_ok());
     let deadline = Instant::now() + WATCHDOG;
     let mut buf: Vec<u8> = Vec::new();
     let mut seen_s1 = false;
@@ -304,12 +331,12 @@ fn run_tcp(addr: std::net::SocketAddr, counters: &Counters, reqs: &[ReqSpec], ex
     s.set_read_timeout(Some(Duration::from_millis(50))).ok();
     let mut tmp = [0u8; 65536];
     loop {
-        // parse whatever is complete
         while let Some((f, n)) = RawFrame::parse_prefix(&buf) {
             buf.drain(..n);
             if f.h.id == S1 && f.query == b"/__end" { seen_s1 = true; continue; }
             if f.h.id == S2 && f.query == b"/__end" { seen_s2 = true; continue; }
             out.frames.push(f);
+            if !read_delay.is_zero() { std::thread::sleep(read_delay); }
         }
         if seen_s2 { break; }
         if seen_s1 && !sent_s2 {
@@ -332,26 +359,38 @@ fn run_tcp(addr: std::net::SocketAddr, counters: &Counters, reqs: &[ReqSpec], ex
         }
     }
     if !buf.is_empty() { out.problems.push("trailing-partial-frame".into()); }
+    let _ = s.shutdown(std::net::Shutdown::Both);
+    let _ = writer.join();
     out
 }
 
-fn run_ws(sv: &Servers, reqs: &[ReqSpec], expect_ids: &[u64], expect_dispatch: u64) -> TransportRun {
+fn run_ws(sv: &Servers, ep: &Endpoint, reqs: &[ReqSpec], expect_ids: &[u64], expect_dispatch: u64, read_delay: Duration) -> TransportRun {
     use tokio_tungstenite::tungstenite::Message as WsMsg;
-    let counters = sv.c_ws.clone();
+    let counters = ep.counters.clone();
     let base_done = counters.total_done();
-    let url = format!("ws://{}/repe", sv.ws);
+    let url = format!("ws://{}/repe", ep.addr);
     let reqs: Vec<Vec<u8>> = reqs.iter().map(|r| RawFrame { h: r.h.clone(), query: r.query.clone(), body: r.body.clone() }.to_vec()).collect();
     let expect_ids = expect_ids.to_vec();
     sv.rt.block_on(async move {
         let mut out = TransportRun::default();
-        let (mut ws, _) = match tokio_tungstenite::connect_async(&url).await {
-            Ok(x) => x,
+        let ws = match tokio_tungstenite::connect_async(&url).await {
+            Ok((x, _)) => x,
             Err(e) => { out.problems.push(format!("connect: {e}")); return out; }
         };
-        for r in reqs {
-            if ws.send(WsMsg::Binary(r)).await.is_err() { out.problems.push("send".into()); return out; }
-        }
-        if ws.send(WsMsg::Binary(sentinel(S1))).await.is_err() { out.problems.push("send-s1".into()); return out; }
+        let (mut sink, mut stream) = ws.split();
+        let (s2_tx, mut s2_rx) = tokio::sync::mpsc::channel::<()>(1);
+        // sender task: all requests, the first sentinel, and (on request) the second sentinel
+        let sender = tokio::spawn(async move {
+            for r in reqs {
+                if sink.send(WsMsg::Binary(r)).await.is_err() { return false; }
+            }
+            if sink.send(WsMsg::Binary(sentinel(S1))).await.is_err() { return false; }
+            if s2_rx.recv().await.is_some() {
+                if sink.send(WsMsg::Binary(sentinel(S2))).await.is_err() { return false; }
+            }
+            let _ = tokio::time::timeout(Duration::from_millis(300), sink.close()).await;
+            true
+        });
         let deadline = Instant::now() + WATCHDOG;
         let (mut seen_s1, mut sent_s2) = (false, false);
         loop {
@@ -362,12 +401,12 @@ fn run_ws(sv: &Servers, reqs: &[ReqSpec], expect_ids: &[u64], expect_dispatch: u
                 if (all && quiesced) || Instant::now() > deadline - Duration::from_secs(5) {
                     if !all { out.problems.push("missing-response".into()); }
                     if !quiesced { out.problems.push("handlers-not-finished".into()); }
-                    if ws.send(WsMsg::Binary(sentinel(S2))).await.is_err() { out.problems.push("send-s2".into()); break; }
+                    if s2_tx.send(()).await.is_err() { out.problems.push("send-s2".into()); break; }
                     sent_s2 = true;
                 }
             }
             if Instant::now() > deadline { out.problems.push("watchdog".into()); break; }
-            match tokio::time::timeout(Duration::from_millis(50), ws.next()).await {
+            match tokio::time::timeout(Duration::from_millis(50), stream.next()).await {
                 Err(_) => continue,
                 Ok(None) => { out.problems.push("connection-closed".into()); break; }
                 Ok(Some(Err(e))) => { out.problems.push(format!("ws-error: {e}")); break; }
@@ -376,13 +415,15 @@ fn run_ws(sv: &Servers, reqs: &[ReqSpec], expect_ids: &[u64], expect_dispatch: u
                         if f.h.id == S1 && f.query == b"/__end" { seen_s1 = true; continue; }
                         if f.h.id == S2 && f.query == b"/__end" { break; }
                         out.frames.push(f);
+                        if !read_delay.is_zero() { tokio::time::sleep(read_delay).await; }
                     }
                     _ => out.problems.push("malformed-ws-message".into()),
                 },
                 Ok(Some(Ok(_))) => {}
             }
         }
-        let _ = tokio::time::timeout(Duration::from_millis(300), ws.close(None)).await;
+        drop(s2_tx);
+        let _ = tokio::time::timeout(Duration::from_millis(500), sender).await;
         out
     })
 }
@@ -394,7 +435,7 @@ fn utf8(q: &[u8]) -> bool {
     std::str::from_utf8(q).is_ok()
 }
 
-fn run_sequence(out: &mut Out, sv: &Servers, probe: &Router, seqno: usize, reqs: &[ReqSpec]) {
+fn run_sequence(out: &mut Out, sv: &Servers, probe: &Router, seqno: usize, reqs: &[ReqSpec], pressure: bool) {
     // in-process probe of each request (handler-level outcome on both entry points)
     let mut op_lines = Vec::new();
     let mut expect_ids = Vec::new();
@@ -441,24 +482,33 @@ fn run_sequence(out: &mut Out, sv: &Servers, probe: &Router, seqno: usize, reqs:
         out.count(&format!("dispatch.notify.{}", r.h.notify));
         if hv.starts_with("err:") { out.count(&format!("dispatch.handler_err.{}", hv.split(':').nth(1).unwrap())); }
         op_lines.push(format!("req {} {} {} {} {} {} {} {}", idx, r.h.fields(), hex(&r.query), hex(&r.body), found as u8, if off { "o" } else { "i" }, hv, ho));
+        if pressure { op_lines.last_mut().unwrap().push_str(" P"); }
     }
     // real servers
     let snap = |c: &Counters| c.started.lock().unwrap().clone();
-    let (b1, b2, b3) = (snap(&sv.c_tcp), snap(&sv.c_atcp), snap(&sv.c_ws));
-    let t1 = run_tcp(sv.tcp, &sv.c_tcp, reqs, &expect_ids, expect_dispatch);
-    let t2 = run_tcp(sv.atcp, &sv.c_atcp, reqs, &expect_ids, expect_dispatch);
-    let t3 = run_ws(sv, reqs, &expect_ids, expect_dispatch);
-    let delta = |c: &Counters, base: &BTreeMap<String, u64>| -> BTreeMap<String, u64> {
-        let now = c.started.lock().unwrap().clone();
+    let read_delay = if pressure { Duration::from_millis(2) } else { Duration::ZERO };
+    let mut runs: Vec<(&'static str, Kind, TransportRun, BTreeMap<String, u64>)> = Vec::new();
+    for ep in &sv.eps {
+        // the single-slot WebSocket server is only interesting under pressure (and slow otherwise)
+        if ep.name == "wsp" && !pressure { continue; }
+        if ep.name == "ws" && pressure { continue; }
+        let base = snap(&ep.counters);
+        let t = match ep.kind {
+            Kind::Tcp => run_tcp(ep, reqs, &expect_ids, expect_dispatch, read_delay),
+            Kind::Ws => run_ws(sv, ep, reqs, &expect_ids, expect_dispatch, read_delay),
+        };
+        let now = ep.counters.started.lock().unwrap().clone();
         let endk = hex(b"/__end");
-        now.iter().filter(|(k, _)| **k != endk).map(|(k, v)| (k.clone(), v - base.get(k).copied().unwrap_or(0))).filter(|(_, v)| *v > 0).collect()
-    };
-    let (d1, d2, d3) = (delta(&sv.c_tcp, &b1), delta(&sv.c_atcp, &b2), delta(&sv.c_ws, &b3));
+        let d: BTreeMap<String, u64> = now.iter().filter(|(k, _)| **k != endk).map(|(k, v)| (k.clone(), v - base.get(k).copied().unwrap_or(0))).filter(|(_, v)| *v > 0).collect();
+        // the two WebSocket servers share the observation column `ws`
+        runs.push((if ep.kind == Kind::Ws { "ws" } else { ep.name }, ep.kind, t, d));
+    }
     let all_ops: Vec<String> = op_lines.clone();
+    let pfx = if pressure { "dispatch.pressure" } else { "dispatch" };
     // ---- direct oracles -----------------------------------------------------------------
-    for (name, t, d) in [("tcp", &t1, &d1), ("atcp", &t2, &d2), ("ws", &t3, &d3)] {
+    for (name, kind, t, d) in &runs {
         for p in &t.problems {
-            out.oracle_fail(&format!("dispatch.{}.{}", name, p.split(':').next().unwrap()), &format!("transport {}: {}", name, p), &all_ops);
+            out.oracle_fail(&format!("{}.{}.{}", pfx, name, p.split(':').next().unwrap()), &format!("transport {}: {}", name, p), &all_ops);
         }
         // exactly one response per non-notify request, none for notify==1
         let mut count: BTreeMap<u64, u64> = BTreeMap::new();
@@ -466,42 +516,41 @@ fn run_sequence(out: &mut Out, sv: &Servers, probe: &Router, seqno: usize, reqs:
         for r in reqs {
             let n = count.get(&r.h.id).copied().unwrap_or(0);
             if r.h.notify == 1 && n != 0 {
-                out.oracle_fail(&format!("dispatch.{}.notify_answered", name), &format!("notify request id {} got {} response(s)", r.h.id, n), &all_ops);
+                out.oracle_fail(&format!("{}.{}.notify_answered", pfx, name), &format!("notify request id {} got {} response(s)", r.h.id, n), &all_ops);
             }
             if r.h.notify != 1 && n != 1 && t.problems.is_empty() {
-                out.oracle_fail(&format!("dispatch.{}.response_count", name), &format!("request id {} got {} responses", r.h.id, n), &all_ops);
+                out.oracle_fail(&format!("{}.{}.response_count", pfx, name), &format!("request id {} got {} responses", r.h.id, n), &all_ops);
             }
         }
         for f in &t.frames {
             if !reqs.iter().any(|r| r.h.id == f.h.id) {
-                out.oracle_fail(&format!("dispatch.{}.unknown_id", name), &format!("response with id {} matches no request", f.h.id), &all_ops);
+                out.oracle_fail(&format!("{}.{}.unknown_id", pfx, name), &format!("response with id {} matches no request", f.h.id), &all_ops);
             }
-            if f.h.notify != 0 && f.h.notify != 1 { /* handler-chosen; not constrained */ }
         }
         // handler invoked exactly once per dispatched request, never for a rejected one
         if *d != dispatched_paths && t.problems.is_empty() {
-            out.oracle_fail(&format!("dispatch.{}.invocations", name), &format!("handler invocations {:?} != dispatched requests {:?}", d, dispatched_paths), &all_ops);
+            out.oracle_fail(&format!("{}.{}.invocations", pfx, name), &format!("handler invocations {:?} != dispatched requests {:?}", d, dispatched_paths), &all_ops);
         }
         // arrival order for inline requests
         let pos: BTreeMap<u64, usize> = t.frames.iter().enumerate().map(|(i, f)| (f.h.id, i)).collect();
         let mut last: Option<usize> = None;
         for (k, r) in reqs.iter().enumerate() {
-            if name == "ws" && is_off[k] { continue; }
+            if *kind == Kind::Ws && is_off[k] { continue; }
             if let Some(p) = pos.get(&r.h.id) {
-                if let Some(l) = last { if *p < l { out.oracle_fail(&format!("dispatch.{}.order", name), "inline responses out of arrival order", &all_ops); break; } }
+                if let Some(l) = last { if *p < l { out.oracle_fail(&format!("{}.{}.order", pfx, name), &format!("inline responses out of arrival order (request id {})", r.h.id), &all_ops); break; } }
                 last = Some(*p);
             }
         }
     }
     // same response fields (incl. error bodies) on every transport
+    let healthy = runs.iter().all(|(_, _, t, _)| t.problems.is_empty());
     for r in reqs {
-        let get = |t: &TransportRun| t.frames.iter().find(|f| f.h.id == r.h.id).cloned();
-        let (a, b, c) = (get(&t1), get(&t2), get(&t3));
-        if t1.problems.is_empty() && t2.problems.is_empty() && t3.problems.is_empty() && !(a == b && b == c) {
-            out.oracle_fail("dispatch.transports_disagree", &format!("request id {}: tcp/async/ws responses differ", r.h.id), &all_ops);
+        let got: Vec<Option<RawFrame>> = runs.iter().map(|(_, _, t, _)| t.frames.iter().find(|f| f.h.id == r.h.id).cloned()).collect();
+        if healthy && got.iter().any(|g| *g != got[0]) {
+            let names: Vec<&str> = runs.iter().zip(got.iter()).filter(|(_, g)| **g != got[0]).map(|(r, _)| r.0).collect();
+            out.oracle_fail(&format!("{}.transports_disagree.{}", pfx, names.join("+")), &format!("request id {}: the response differs between tcp and {:?}", r.h.id, names), &all_ops);
         }
-        if let Some(f) = &a {
-            // id echo and query echo (built-in handlers; the custom handler sets its own query)
+        if let Some(f) = &got[0] {
             if f.h.id != r.h.id { out.oracle_fail("dispatch.id", "response id differs", &all_ops); }
             if f.query != r.query && f.query != b"/own/query" { out.oracle_fail("dispatch.query_echo", &format!("request id {}: response query is neither the request's nor the handler's own", r.h.id), &all_ops); }
         }
@@ -510,11 +559,49 @@ fn run_sequence(out: &mut Out, sv: &Servers, probe: &Router, seqno: usize, reqs:
     for (k, r) in reqs.iter().enumerate() {
         let show = |t: &TransportRun| t.frames.iter().find(|f| f.h.id == r.h.id).map(show_resp).unwrap_or_else(|| "noresp".into());
         let idx = format!("{}.{}", seqno, k);
-        let nontrivial = t1.frames.iter().any(|f| f.h.id == r.h.id && f.h.ec == 0);
-        out.case(&op_lines[k], &format!("{} tcp={} atcp={} ws={}", idx, show(&t1), show(&t2), show(&t3)), nontrivial);
+        let nontrivial = runs[0].2.frames.iter().any(|f| f.h.id == r.h.id && f.h.ec == 0);
+        let cols: Vec<String> = runs.iter().map(|(n, _, t, _)| format!("{}={}", n, show(t))).collect();
+        out.case(&op_lines[k], &format!("{} {}", idx, cols.join(" ")), nontrivial);
     }
     let fmt = |d: &BTreeMap<String, u64>| d.iter().map(|(k, v)| format!("{}:{}", k, v)).collect::<Vec<_>>().join(",");
-    out.case(&format!("inv {}.inv", seqno), &format!("{}.inv tcp=[{}] atcp=[{}] ws=[{}]", seqno, fmt(&d1), fmt(&d2), fmt(&d3)), false);
+    let cols: Vec<String> = runs.iter().map(|(n, _, _, d)| format!("{}=[{}]", n, fmt(d))).collect();
+    out.case(&format!("inv {}.inv", seqno), &format!("{}.inv {}", seqno, cols.join(" ")), false);
+    if pressure { out.count("dispatch.pressure_sequences"); }
+}
+
+/// A sequence that keeps outbound queues full: large echoed bodies interleaved with rejected requests
+/// and small inline ones, read slowly by the client.
+fn gen_pressure(r: &mut Rng, base_id: u64) -> Vec<ReqSpec> {
+    let n = r.range(12, 28) as usize;
+    let mut v = Vec::new();
+    for k in 0..n {
+        let id = base_id + k as u64 + 1;
+        let spec = match r.below(5) {
+            0 | 1 => {
+                // big echo through an inline JSON route
+                let len = *r.pick(&[20_000usize, 70_000, 150_000]);
+                let body = format!("\"{}\"", "x".repeat(len)).into_bytes();
+                let f = RawFrame::request(id, false, 1, b"/json", 2, &body);
+                ReqSpec { h: f.h, query: b"/json".to_vec(), body }
+            }
+            2 => {
+                // rejected: unknown path / bad version / raw-binary query format
+                let mut f = RawFrame::request(id, false, 1, b"/nope", 2, b"{}");
+                match r.below(3) { 0 => {}, 1 => f.h.version = 2, _ => f.h.query_format = 0 }
+                ReqSpec { h: f.h, query: b"/nope".to_vec(), body: b"{}".to_vec() }
+            }
+            3 => {
+                let f = RawFrame::request(id, false, 1, b"/json_b", 2, b"{\"a\":1}");
+                ReqSpec { h: f.h, query: b"/json_b".to_vec(), body: b"{\"a\":1}".to_vec() }
+            }
+            _ => {
+                let f = RawFrame::request(id, r.chance(1, 4), 1, b"/json", 2, b"[1,2]");
+                ReqSpec { h: f.h, query: b"/json".to_vec(), body: b"[1,2]".to_vec() }
+            }
+        };
+        v.push(spec);
+    }
+    v
 }
 
 fn main() {
@@ -535,13 +622,16 @@ fn main() {
             let h = RawHeader { length: f[0], spec: f[1] as u16, version: f[2] as u8, notify: f[3] as u8, reserved: f[4] as u32, id: f[5], query_length: f[6], body_length: f[7], query_format: f[8] as u16, body_format: f[9] as u16, ec: f[10] as u32 };
             reqs.push(ReqSpec { h, query: unhex(w[13]).unwrap(), body: unhex(w[14]).unwrap() });
         }
-        run_sequence(&mut out, &sv, &probe, 0, &reqs);
+        let pressure = ops.iter().any(|l| l.starts_with("req ") && l.ends_with(" P"));
+        run_sequence(&mut out, &sv, &probe, 0, &reqs, pressure);
     } else {
         let nseq = if args.thorough() { 1500 } else { 120 };
         for s in 0..nseq {
             let len = match rng.below(6) { 0 => 1, 1 => rng.range(2, 4), 2 | 3 => rng.range(5, 16), 4 => rng.range(17, 40), _ => rng.range(41, 64) } as usize;
             let reqs: Vec<ReqSpec> = (0..len).map(|k| gen_request(&mut rng, (s as u64) * 1000 + k as u64 + 1)).collect();
-            run_sequence(&mut out, &sv, &probe, s, &reqs);
+            let pressure = s % 8 == 7;
+            let reqs = if pressure { gen_pressure(&mut rng, (s as u64) * 1000) } else { reqs };
+            run_sequence(&mut out, &sv, &probe, s, &reqs, pressure);
         }
     }
     out.finish();
